@@ -90,7 +90,9 @@ theorem lingo_tree : ∀ (s : Stmt), FragX s = true → ∀ (n : Node), EmbT s n
   | .hilite t, hf, n, h, ind => by
     simp only [FragX] at hf
     exact lingo_stmt (.hilite t) hf n h ind
-  | .mcall .., hf, _, _, _ => by simp [FragX] at hf
+  | .mcall o m as, hf, n, h, ind => by
+    simp only [FragX] at hf
+    exact lingo_stmt (.mcall o m as) hf n h ind
   | .tell .., hf, _, _, _ => by simp [FragX] at hf
   | .repeatIn .., hf, _, _, _ => by simp [FragX] at hf
   | .exitRepeat, hf, _, _, _ => by simp [FragX] at hf
